@@ -40,7 +40,26 @@ def judge(rec, price, ops):
     return []
 
 
+def same_as_model(o):
+    """Does the model reproduce the implementation's answers (original and copy) at this operation?"""
+    I, M = o["I"], o["M"]
+    if not M or " || " not in I or " || " not in M:
+        return False
+    for a, b in zip(I.split(" || "), M.split(" || ")):
+        da, db = lvl.kv(a), lvl.kv(b)
+        if "txs" in da:
+            if "txs" not in db or tx_core(da["txs"]) != tx_core(db["txs"]) or da["rem"] != db["rem"] or da["filled"] != db["filled"]:
+                return False
+        if "out" in da and da["out"] != db.get("out"):
+            return False
+    return True
+
+
 def classify(rec, price, ops, i, text):
+    # known findings K3/K2 only if the faithful model shows the same divergence at that operation
+    for o in rec["ops"]:
+        if o["i"] == i and not same_as_model(o):
+            return None
     prev = None
     for o in rec["ops"]:
         if o["op"].startswith("FORK"):
